@@ -26,7 +26,7 @@ REQUIRED_FEATURES = ["op:create-a", "op:create-w", "op:recreate-occupied", "op:c
                      "op:ln-hard", "op:ln-soft", "op:ln-external", "op:cp-onto-occupied", "op:cp-overwrite",
                      "via:cli", "via:api", "uri:no-leading-slash", "is_cooler:missing-group", "is_cooler:missing-file",
                      "is_cooler:non-hdf5", "is_cooler:dataset-path", "op:cp-to-root", "op:mv-onto-occupied",
-                     "op:ln-onto-occupied", "op:mv-spelling", "op:samefile-overwrite", "is_cooler:dangling-link", "op:mv-cross-file", "wholefile:cp", "wholefile:mv",
+                     "op:ln-onto-occupied", "op:mv-spelling", "op:samefile-overwrite", "is_cooler:dangling-link", "op:mv-cross-file", "wholefile:cp", "wholefile:mv", "op:create-w:unordered-two-pass",
                      "layout:second-file-behind-symlinked-directory"]
 
 PATHS = ["/a", "/b", "/g/x", "/g/y", "/h", "/k/deep/z", "/a_old", "/g/x2"]      # incl. names that extend another name
@@ -189,7 +189,16 @@ def one_history(ctx, cid, rng):
                     P = {k: v + step for k, v in P.items()}
                     u = uri(rng, f, p, c)
                     bt_k = [[f"{nm}.{step}", e] for nm, e in bt] if rng.random() < 0.5 else bt   # own chromosome names
-                    make_cooler(u, bt_k, P, mode=mode)
+                    if mode == "w" and len(P) >= 3 and rng.random() < 0.5:
+                        # write mode through the unordered (two-pass, recursive merge) creation path
+                        import cooler
+                        dfp = gen.pixels_frame(P, None)
+                        chs = [dfp.iloc[i_::4] for i_ in range(4)]
+                        cooler.create_cooler(u, gen.bt_frame(bt_k), iter([ch_ for ch_ in chs if len(ch_)]), ordered=False,
+                                             max_merge=2, mergebuf=int([1, 10**6][int(rng.integers(2))]), mode="w")
+                        c.feature("op:create-w:unordered-two-pass")
+                    else:
+                        make_cooler(u, bt_k, P, mode=mode)
                     if rng.random() < 0.3:
                         from .c14 import to_int_encoding
                         to_int_encoding(f, p)          # chromosome ids stored as plain integers (many-contig layout)
